@@ -27,7 +27,7 @@ class C20(object):
     assumptions = ["variable names do not collide with the template's own identifiers (STEP, main, err, cnt, ...)",
                    'exogenous variables are lists/tuples/list expressions (the template slices them)',
                    'tolerance line 1e-6..1e-9, default cap 400 of the template']
-    required_counters = ('module.ran', 'equations_judged', 'vs_inprocess.compared', 'header.judged',
+    required_counters = ('module.ran', 'module.ran.with_variable_T_next_to_t', 'equations_judged', 'vs_inprocess.compared', 'header.judged',
                          'module.without_user_time', 'generator.reused', 'bundled.ran')
 
     def n_cases(self, tier):
@@ -58,6 +58,10 @@ class C20(object):
         spec['style']['comments'] = False
         case = {'kind': 'block', 'spec': spec, 'text': G.render(spec), 'gen_reduction': rng.random() < 0.5,
                 'reuse': rng.choice([None, None, 'main_twice', 'other_block_first', 'generate_equations_first'])}
+        if idx % 4 == 2 and 'T' not in G.all_value_names(spec) + [d['name'] for d in spec['decos']]:
+            # textbook notation: a variable T (taxes) next to the time axis t - names that differ only by case
+            case['text'] = 'T = 0.25*%s + 1.0\nK_cap = 0.5*T\n' % xs[0] + case['text']
+            case['case_variant_of_time_axis'] = True
         if case['reuse'] == 'other_block_first':
             other = G.gen_affine(rng, rho=0.5, tol=1e-8, maxtime=rng.randint(1, 4), ics=False)
             for e in other['exos']:
@@ -171,6 +175,8 @@ class C20(object):
                             mechanism='module_does_not_run')
                 return self.done(rec, shape, False)
             rec.count('module.ran')
+            if case.get('case_variant_of_time_axis'):
+                rec.count('module.ran.with_variable_T_next_to_t')
             if not spec['time']:
                 rec.count('module.without_user_time')
             # collect the module's series
